@@ -1,9 +1,9 @@
 #!/bin/bash
-# usage: confirm_seed.sh <PROP> <N>   -- confirms seed N produced in /tmp/seed_<PROP> and stores it under /verif/seeded/<PROP>-<N>/
+# usage: confirm_seed.sh <PROP> <N> [SRC_DIR]   -- confirms seed N produced in /tmp/seed_<PROP> and stores it under /verif/seeded/<PROP>-<N>/
 # Confirms: patch applies to /repo HEAD; full suite still passes with it (108 passed); demo fails with it, passes without.
 set -u
 P=$1; N=$2
-SRC=/tmp/seed_$P
+SRC=${3:-/tmp/seed_$P}
 WT=/tmp/confirm_${P}_$N
 OUT=/verif/seeded/$P-$N
 rm -rf $WT; git -C /repo worktree prune
